@@ -581,6 +581,62 @@ func buildC13(w *World, upto int, only string) *c13Group {
 	return cg
 }
 
+// refState is what a matcher has done to the request so far.
+type refState struct {
+	path   string
+	params map[string]string
+}
+
+func matchOnce(m mux.Matcher, q Req, st refState) (ok bool, after refState) {
+	rec := &ReqRec{}
+	q.Path = st.path
+	req := buildRequest(q, rec)
+	after = st
+	catch(func() {
+		ctx := types.NewContext()
+		defer ctx.Destroy()
+		for k, v := range st.params {
+			ctx.Set(k, v)
+		}
+		ok = m.Match(req, ctx)
+		after = refState{path: req.URL.Path, params: snapshotParams(ctx)}
+	})
+	return
+}
+
+// refEval is the reference semantics of matcher composition: leaves are the
+// real matchers run on copies, And/Or are composed here so that a rejection -
+// at any depth - leaves no trace.
+func refEval(spec *MSpec, q Req, st refState) (bool, refState) {
+	switch spec.K {
+	case "nil":
+		return true, st
+	case "and":
+		cur := st
+		for _, sub := range spec.Sub {
+			ok, ns := refEval(sub, q, cur)
+			if !ok {
+				return false, st
+			}
+			cur = ns
+		}
+		return true, cur
+	case "or":
+		for _, sub := range spec.Sub {
+			if ok, ns := refEval(sub, q, st); ok {
+				return true, ns
+			}
+		}
+		return false, st
+	default:
+		ok, ns := matchOnce(buildMatcher(spec), q, st)
+		if !ok {
+			return false, st
+		}
+		return true, ns
+	}
+}
+
 func obsKey13(o *Obs) string {
 	return fmt.Sprintf("%s router=%s path=%q trace=%v", o.Key(), o.Router, o.PathSeen, o.Trace)
 }
@@ -616,6 +672,30 @@ func execC13(w *World, st *Stats) (*Violation, RunInfo) {
 				ms = append(ms, n+"="+encodeSpec(cg.specs[n]))
 			}
 			return &Violation{Prop: "C13", Oracle: oracle, Sig: sig, Detail: fmt.Sprintf("%s hdr=%v | routers %v | %s", op.Req, op.Req.Hdr, ms, detail), Step: i}
+		}
+		// matcher composition: the real composite against the reference semantics
+		for _, name := range cg.order {
+			spec := cg.specs[name]
+			if spec.K != "and" && spec.K != "or" {
+				continue
+			}
+			st.C("c13_composites_checked")
+			start := refState{path: op.Req.Path, params: map[string]string{}}
+			wantOK, want := refEval(spec, *op.Req, start)
+			gotOK, got := matchOnce(buildMatcher(spec), *op.Req, start)
+			if gotOK != wantOK {
+				return mk("matcher-composition", "composite-verdict", fmt.Sprintf("matcher %s: accepts=%v, composing its members gives %v", encodeSpec(spec), gotOK, wantOK)), info
+			}
+			if !gotOK {
+				want = start // a rejection leaves no trace
+			}
+			if got.path != want.path || fmtParams(got.params) != fmtParams(want.params) {
+				sig := "composite-trace-after-accept"
+				if !gotOK {
+					sig = "reject-left-trace"
+				}
+				return mk("matcher-composition", sig, fmt.Sprintf("matcher %s (accepted=%v) left path=%q params=%s, want path=%q params=%s", encodeSpec(spec), gotOK, got.path, fmtParams(got.params), want.path, fmtParams(want.params))), info
+			}
 		}
 		// reference: first router, in Add order, whose matcher accepts the request as originally received
 		winner := ""
